@@ -342,3 +342,36 @@ package lower
 //@   at (*Lowerer).interruptEmitter#1 assert [x] aKind == "f64" ==> is(arg1.Kind, ir.Literal) && is(arg1.Kind.(ir.Literal).Value, ir.LiteralF64) && same(float64(arg1.Kind.(ir.Literal).Value.(ir.LiteralF64)), aVals[1]*bVals[2] - aVals[2]*bVals[1])
 //@   at (*Lowerer).interruptEmitter#2 assert [y] aKind == "f64" ==> is(arg1.Kind, ir.Literal) && is(arg1.Kind.(ir.Literal).Value, ir.LiteralF64) && same(float64(arg1.Kind.(ir.Literal).Value.(ir.LiteralF64)), aVals[2]*bVals[0] - aVals[0]*bVals[2])
 //@   at (*Lowerer).interruptEmitter#3 assert [z] aKind == "f64" ==> is(arg1.Kind, ir.Literal) && is(arg1.Kind.(ir.Literal).Value, ir.LiteralF64) && same(float64(arg1.Kind.(ir.Literal).Value.(ir.LiteralF64)), aVals[0]*bVals[1] - aVals[1]*bVals[0])
+
+// ---- typed literals for both abstract kinds (C09, C06) ------------------------------------------
+//
+//@ func (*Lowerer).computeConcreteLiteral
+//@   mode bv
+//@   tags C09 C06
+//@   ensures [int-u32] isInt && target.Kind == ir.ScalarUint && target.Width != 8 ==> is(result, ir.LiteralU32) && uint32(result.(ir.LiteralU32)) == uint32(intVal)
+//@   ensures [int-u64] isInt && target.Kind == ir.ScalarUint && target.Width == 8 ==> is(result, ir.LiteralU64) && uint64(result.(ir.LiteralU64)) == uint64(intVal)
+//@   ensures [int-i32] isInt && target.Kind == ir.ScalarSint && target.Width != 8 ==> is(result, ir.LiteralI32) && int32(result.(ir.LiteralI32)) == int32(intVal)
+//@   ensures [int-i64] isInt && target.Kind == ir.ScalarSint && target.Width == 8 ==> is(result, ir.LiteralI64) && int64(result.(ir.LiteralI64)) == intVal
+//@   ensures [int-f16] isInt && target.Kind == ir.ScalarFloat && target.Width == 2 ==> is(result, ir.LiteralF16)
+//@   ensures [int-f32] isInt && target.Kind == ir.ScalarFloat && target.Width == 4 ==> is(result, ir.LiteralF32) && same(float32(result.(ir.LiteralF32)), float32(intVal))
+//@   ensures [int-f64] isInt && target.Kind == ir.ScalarFloat && target.Width == 8 ==> is(result, ir.LiteralF64) && same(float64(result.(ir.LiteralF64)), float64(intVal))
+//@   ensures [float-f16] !isInt && target.Kind == ir.ScalarFloat && target.Width == 2 ==> is(result, ir.LiteralF16)
+//@   ensures [float-f32] !isInt && target.Kind == ir.ScalarFloat && target.Width == 4 ==> is(result, ir.LiteralF32) && same(float32(result.(ir.LiteralF32)), float32(floatVal))
+//@   ensures [float-f64] !isInt && target.Kind == ir.ScalarFloat && target.Width == 8 ==> is(result, ir.LiteralF64) && same(float64(result.(ir.LiteralF64)), floatVal)
+//@   pure
+//@   nopanic
+//
+// ---- const_assert conditions (C11) -------------------------------------------------------------------
+//
+// A comparison of two constant integer expressions evaluates to the WGSL
+// comparison of their values; `>` is strict.
+//
+//@ func (*Lowerer).tryEvalConstantBool
+//@   mode bv
+//@   tags C11 C06
+//@   at return assert [eq] lerr == nil && rerr == nil && e.Op == parser.TokenEqualEqual && result1 ==> (result0 <==> lv == rv)
+//@   at return assert [ne] lerr == nil && rerr == nil && e.Op == parser.TokenBangEqual && result1 ==> (result0 <==> lv != rv)
+//@   at return assert [lt] lerr == nil && rerr == nil && e.Op == parser.TokenLess && result1 ==> (result0 <==> lv < rv)
+//@   at return assert [le] lerr == nil && rerr == nil && e.Op == parser.TokenLessEqual && result1 ==> (result0 <==> lv <= rv)
+//@   at return assert [gt] lerr == nil && rerr == nil && e.Op == parser.TokenGreater && result1 ==> (result0 <==> lv > rv)
+//@   at return assert [ge] lerr == nil && rerr == nil && e.Op == parser.TokenGreaterEqual && result1 ==> (result0 <==> lv >= rv)
